@@ -135,6 +135,11 @@ func (b *ServerBuilder) VerifConfig() *ServerConfig {
 	return b.config
 }
 
+// VerifConfig returns the configuration the ClientBuilder is assembling.
+func (b *ClientBuilder) VerifConfig() *ClientConfig {
+	return b.config
+}
+
 var verifGate atomic.Value // of func(string)
 
 // VerifSetGate installs (or, with nil, removes) the function called at every
